@@ -393,3 +393,111 @@ Proof.
   apply Forall_forall. intros x Hx. rewrite Forall_forall in G. apply G.
   eapply Permutation_in; [apply nat_sort_perm | exact Hx].
 Qed.
+
+(* ------------------------------------------------------------------ Part 3: the behemoth threshold is irrelevant *)
+Lemma map_nth_seq (idx : list nat) : map (fun k => nth k idx 0) (seq 0 (length idx)) = idx.
+Proof.
+  induction idx as [|x t IH]; [reflexivity|]. cbn [length seq map nth]. f_equal.
+  rewrite <- seq_shift, map_map. exact IH.
+Qed.
+
+(* what "the same selection" means for two runs of _run_selection: same outcome; on `break` the same
+   choice sequence in the loop after desperate prefixes that are permutations of each other, hence the
+   same selected SET; the same final utility array *)
+Definition sel_same (d d' : list nat) (r r' : wres) : Prop :=
+  match r, r' with
+  | WDone s, WDone s' =>
+      (exists t, chosen s = d ++ t /\ chosen s' = d' ++ t) /\ Permutation d d' /\
+      Permutation (chosen s) (chosen s') /\ (forall g, utility s g = utility s' g)
+  | WIllegal g, WIllegal g' => g = g'
+  | WStuck, WStuck => True
+  | WOutOfFuel, WOutOfFuel => True
+  | _, _ => False
+  end.
+
+Theorem threshold_core n_genes n pick marksB marksD idx idxB idxD :
+  pick_respects pick ->
+  (forall g k d, k < length idx -> marksD g (k, d) = marksB g (nth k idx 0, d)) ->
+  Permutation idxB idx -> Permutation idxD (seq 0 (length idx)) ->
+  sel_same (chosen (start n_genes idxB marksB n)) (chosen (start n_genes idxD marksD n))
+           (select_with n_genes idxB marksB n pick) (select_with n_genes idxD marksD n pick).
+Proof.
+  intros HR HM PB PD.
+  set (f := fun k => nth k idx 0). set (loc := seq 0 (length idx)).
+  assert (HM' : forall g p d, In p loc -> marksD g (p, d) = marksB g (f p, d)).
+  { intros g p d Hp. apply HM. apply in_seq in Hp. lia. }
+  pose proof (select_with_ren n_genes n f loc marksD marksB HM' pick) as H2.
+  pose proof (start_ren n_genes n f loc marksD marksB HM') as S2.
+  unfold rn_pairs in H2, S2. unfold f, loc in H2, S2. rewrite map_nth_seq in H2, S2. fold loc in H2, S2.
+  pose proof (pick_function_order_irrelevant n_genes marksB n idxB idx pick PB HR) as H1.
+  pose proof (pick_function_order_irrelevant n_genes marksD n loc idxD pick (Permutation_sym PD) HR) as H3.
+  pose proof (start_same n_genes marksB n idxB idx PB) as S1.
+  pose proof (start_same n_genes marksD n loc idxD (Permutation_sym PD)) as S3.
+  assert (PS : Permutation (chosen (start n_genes idxB marksB n)) (chosen (start n_genes idxD marksD n))).
+  { eapply Permutation_trans; [apply S1|]. destruct S2 as (S2 & _). rewrite <- S2. apply S3. }
+  unfold sel_same.
+  destruct (select_with n_genes idxB marksB n pick) as [sB|gB| |],
+           (select_with n_genes idx marksB n pick) as [sC|gC| |]; try contradiction;
+  destruct (select_with n_genes loc marksD n pick) as [sC'|gC'| |]; cbn in H2; try contradiction;
+  destruct (select_with n_genes idxD marksD n pick) as [sD|gD| |]; try contradiction; try exact Logic.I;
+    [|congruence].
+  destruct H1 as ((t1 & A1 & A2 & _) & P1 & _ & _ & U1).
+  destruct H3 as ((t3 & B1 & B2 & _) & P3 & _ & _ & U3).
+  destruct H2 as (C1 & _ & _ & _ & U2). destruct S2 as (S2 & _).
+  assert (t1 = t3).
+  { rewrite C1, A2, <- S2 in B1. apply app_inv_head in B1. auto. }
+  subst t3. split; [exists t1; auto|]. split; [exact PS|]. split.
+  - eapply Permutation_trans; [exact P1|]. rewrite <- C1. exact P3.
+  - intros g. rewrite U1, <- U2, U3. reflexivity.
+Qed.
+
+(* d, d' of sel_same are the desperate prefixes of the two runs: spelled out *)
+Definition parent_res_same (rm' : refmarkers) (t : tree) (parent : option (nat * node)) (n : nat)
+                           (r r' : parent_res) : Prop :=
+  match r, r' with
+  | PSkip, PSkip => True
+  | PErrOverlap, PErrOverlap => True
+  | PErrPair, PErrPair => True
+  | PRun ng w, PRun ng' w' =>
+      ng = ng' /\ ng = length (rm_genes rm') /\
+      exists arr idxB idxD,
+        downsample_pairs rm' (leaf_pairs t parent) = Some arr /\
+        parent_idx rm' t parent true = Some idxB /\ parent_idx arr t parent true = Some idxD /\
+        sel_same (chosen (start ng idxB (marks_of (pair_tables rm')) n))
+                 (chosen (start ng idxD (marks_of (pair_tables arr)) n)) w w'
+  | _, _ => False
+  end.
+
+Lemma parent_idx_some rm t parent b idx :
+  opt_all (map (fun pr => idx_of_pair pr (rm_pairs rm) 0) (leaf_pairs t parent)) = Some idx ->
+  parent_idx rm t parent b = Some (if b then nat_sort idx else idx).
+Proof. intros H. unfold parent_idx. rewrite H. reflexivity. Qed.
+
+(* a parent treated as a behemoth (full table, sorted global pair numbers) and the same parent given a
+   table downsampled to its own pairs (local numbers) get the same selection, for every rule *)
+Theorem threshold_irrelevant pick rm query t parent n :
+  pick_respects pick -> NoDup (leaf_pairs t parent) ->
+  parent_res_same (thin_genes rm query) t parent n
+    (select_parent pick rm query t parent true n) (select_parent pick rm query t parent false n).
+Proof.
+  intros HR ND. unfold select_parent.
+  destruct (keep_idx rm query) as [|k0 kr] eqn:K; [exact Logic.I|].
+  destruct (leaf_pairs t parent) as [|lp lr] eqn:LP; [exact Logic.I|]. rewrite <- LP in *.
+  set (rm' := thin_genes rm query).
+  destruct (downsample_pairs rm' (leaf_pairs t parent)) as [arr|] eqn:D.
+  - destruct (downsample_preserves_marks rm' _ arr ND D) as (G & _ & idx & I1 & I2 & L & _ & M).
+    rewrite (parent_idx_some rm' t parent true idx I1), (parent_idx_some arr t parent true _ I2).
+    cbn. rewrite G. split; [reflexivity|]. split; [reflexivity|].
+    exists arr, (nat_sort idx), (nat_sort (seq 0 (length (leaf_pairs t parent)))).
+    split; [exact D|].
+    split; [apply (parent_idx_some rm' t parent true idx I1)|].
+    split; [apply (parent_idx_some arr t parent true _ I2)|].
+    rewrite <- L. apply threshold_core with (idx := idx).
+    + exact HR.
+    + intros g k d Hk. destruct (nth_error idx k) as [i|] eqn:E.
+      * rewrite (M k i E g d). rewrite (nth_error_nth _ _ 0 E). reflexivity.
+      * apply nth_error_None in E. lia.
+    + apply nat_sort_perm.
+    + apply nat_sort_perm.
+  - pose proof (downsample_none _ _ D) as N. unfold parent_idx. rewrite N. exact Logic.I.
+Qed.
